@@ -178,6 +178,115 @@ func init() {
 					return true
 				})
 				if !found {
+					// decide it on the flow graph: K is accepted when, assuming the node's Type is K, a store
+					// to the seal flag stays reachable (the test may be an if-chain, or live in a boolean
+					// helper that receives the Type)
+					sealedFld := c.LookupField("lisp.LVal.sealed")
+					typeFld := c.LookupField("lisp.LVal.Type")
+					fc := c.cfgOf(u, nil)
+					stores := fc.blocksWith(func(n ast.Node) bool {
+						as, ok := n.(*ast.AssignStmt)
+						if !ok {
+							return false
+						}
+						for _, l := range as.Lhs {
+							if sealedFld != nil && FieldOfSelector(linfo, l) == sealedFld {
+								return true
+							}
+						}
+						return false
+					})
+					if len(stores) > 0 && typeFld != nil {
+						// comparison of `what` (the node's Type, or a helper's parameter) with a type constant
+						cmpWith := func(info *types.Info, e ast.Expr, isSubject func(ast.Expr) bool) (string, bool, bool) {
+							be, ok := ast.Unparen(e).(*ast.BinaryExpr)
+							if !ok || (be.Op != token.EQL && be.Op != token.NEQ) {
+								return "", false, false
+							}
+							for _, pr := range [][2]ast.Expr{{be.X, be.Y}, {be.Y, be.X}} {
+								if !isSubject(pr[0]) {
+									continue
+								}
+								if k := isLTypeConst(info, pr[1]); k != nil {
+									return k.Name(), be.Op == token.EQL, true
+								}
+							}
+							return "", false, false
+						}
+						tri := func(same, eq bool) int {
+							if same == eq {
+								return 1
+							}
+							return 0
+						}
+						var cands []string
+						for k := range produced {
+							cands = append(cands, k)
+						}
+						cands = append(cands, "") // a type the function never mentions
+						for _, k := range cands {
+							k := k
+							reach := fc.reachableUnder(func(e ast.Expr) int {
+								if kk, eq, ok := cmpWith(linfo, e, func(x ast.Expr) bool { return FieldOfSelector(linfo, x) == typeFld }); ok {
+									return tri(kk == k, eq)
+								}
+								// pred(v.Type): evaluate the helper under the same assumption
+								ce, ok := ast.Unparen(e).(*ast.CallExpr)
+								if !ok || len(ce.Args) != 1 || FieldOfSelector(linfo, ce.Args[0]) != typeFld {
+									return -1
+								}
+								g := originOf(Callee(linfo, ce))
+								if g == nil || decls[g] == nil || decls[g].Body == nil || decls[g].Type.Params == nil || len(decls[g].Type.Params.List) != 1 || len(decls[g].Type.Params.List[0].Names) != 1 {
+									return -1
+								}
+								gd := decls[g]
+								param := linfo.Defs[gd.Type.Params.List[0].Names[0]]
+								gfc := c.cfgOf(FuncUnit{g, gd, lp}, nil)
+								greach := gfc.reachableUnder(func(e ast.Expr) int {
+									if kk, eq, ok := cmpWith(linfo, e, func(x ast.Expr) bool { return identObj(linfo, x) == param && param != nil }); ok {
+										return tri(kk == k, eq)
+									}
+									return -1
+								})
+								res := -2
+								for b := range greach {
+									for _, n := range b.Nodes {
+										rs, ok := n.(*ast.ReturnStmt)
+										if !ok || len(rs.Results) != 1 {
+											continue
+										}
+										v := -1
+										if isBoolConst(linfo, rs.Results[0], true) {
+											v = 1
+										} else if isBoolConst(linfo, rs.Results[0], false) {
+											v = 0
+										}
+										if res == -2 {
+											res = v
+										} else if res != v {
+											res = -1
+										}
+									}
+								}
+								if res == -2 {
+									return -1
+								}
+								return res
+							})
+							for b := range stores {
+								if reach[b] {
+									out[k] = true
+									found = true
+								}
+							}
+						}
+						// a function that accepts every type made no test at all: not what this rule reads
+						if out[""] {
+							found = false
+						}
+					}
+				}
+				if !found {
 					return nil, u, "no type switch or table lookup on the node's Type found in " + fname
 				}
 				return out, u, ""
